@@ -166,6 +166,8 @@ func exprShape(e gen.Expr, b *strings.Builder, depth int) int {
 		b.WriteByte('n')
 	case *gen.EStr:
 		b.WriteByte('s')
+	case *gen.EStrExpr:
+		b.WriteString("s!")
 	case *gen.EBool:
 		b.WriteByte('b')
 	case *gen.ENull:
